@@ -60,7 +60,7 @@ def gen_tables(rng):
 
 def gen_spec(rng):
     tables = gen_tables(rng)
-    nt = rng.randrange(1, 4)
+    nt = rng.choice([1, 2, 3, 3, 4, 5])
     ni, nj = rng.randrange(1, 5), rng.randrange(1, 5)
     i0, j0 = rng.randrange(1, 20), rng.randrange(2, 20)
     picks = rng.sample(tables['tracers'], rng.randrange(1, min(3, len(tables['tracers'])) + 1))
@@ -86,9 +86,24 @@ def gen_spec(rng):
         for b in blocks[1:]:
             b['start'] = [i0 + rng.randrange(0, 3), j0 + rng.randrange(0, 3),
                           rng.choice([1, 1, 2, 3])]
+    permute = None
+    if nt >= 2 and len(blocks) >= 2 and rng.random() < 0.2:
+        # an irregular (still valid) file: one later time holds its data blocks
+        # in another order
+        perm = list(range(len(blocks)))
+        while perm == list(range(len(blocks))):
+            rng.shuffle(perm)
+        permute = {'t': rng.randrange(1, nt), 'perm': perm}
+        if rng.random() < 0.6:
+            # same-shape blocks: nothing but the block headers tells them apart
+            for b in blocks:
+                b['nl'] = blocks[0]['nl']
+                b.pop('start', None)
     return {'tables': tables, 'nt': nt, 'ni': ni, 'nj': nj, 'start': [i0, j0, 1],
-            'blocks': blocks, 'tau0': float(rng.choice([0, 100, 140256, 175320])),
-            'dtau': float(rng.choice([1, 24, 744])),
+            'blocks': blocks, 'permute': permute,
+            # time bounds are 8-byte reals: hours that single precision cannot hold
+            'tau0': rng.choice([0.0, 100.0, 140256.0, 175320.0, 175351.0 + 1.0 / 3, 140256.1]),
+            'dtau': rng.choice([1.0, 24.0, 744.0, 1.0 / 3, 0.1]),
             'modelname': rng.choice(['GEOS5_47L', 'GEOS4_30L', 'MERRA_47L']),
             'modelres': rng.choice([[5.0, 4.0], [2.5, 2.0]]),
             'halfpolar': 1, 'center180': 1, 'title': rng.choice(['stub run', 'GEOS-CHEM diag'])}
@@ -108,7 +123,10 @@ def doc_of(spec):
                            'tau0': spec['tau0'] + t * spec['dtau'],
                            'tau1': spec['tau0'] + (t + 1) * spec['dtau'],
                            'start': tuple(b.get('start', spec['start'])), 'data': a,
-                           'reserved': ''})
+                           'reserved': '', 'bi': len(blocks)})
+        pm = spec.get('permute')
+        if pm and pm['t'] == t:
+            blocks = [blocks[i] for i in pm['perm']]
         times.append(blocks)
     return {'title': spec['title'], 'modelname': spec['modelname'],
             'modelres': tuple(spec['modelres']), 'halfpolar': spec['halfpolar'],
@@ -135,7 +153,8 @@ def expected(spec, doc):
             t = {'name': bare['name'] if bare else str(b['tid']), 'scale': 1.0, 'unit': b['unit']}
         else:
             t = tab[(b['cat'], b['tid'])]
-        raw = np.stack([doc['times'][ti][bi]['data'] for ti in range(spec['nt'])])
+        raw = np.stack([[x for x in doc['times'][ti] if x['bi'] == bi][0]['data']
+                        for ti in range(spec['nt'])])
         out['%s_%s' % (b['cat'], t['name'])] = {
             'raw': raw.astype('f4'), 'scale': t['scale'], 'unit': t['unit'],
             'cat': b['cat'], 'tid': b['tid'], 'base_unit': b['unit']}
@@ -279,6 +298,40 @@ def _compare_scaled(st, f, got, what):
             field='grid-header')
 
 
+def _irregular(st, f, op):
+    """A file whose time blocks are not all laid out alike.  The memory-mapped
+    reader may refuse it (the block walker is the documented fallback); what
+    it may not do is serve data under the wrong tracer."""
+    import PseudoNetCDF as pnc
+    w = st.w
+    if op['op'] not in ('scaled_read', 'reopen', 'bpch2'):
+        return {'note': 'noop'}
+    st.stats['evaluations'] += 1
+    st.stats['irregular_files'] = st.stats.get('irregular_files', 0) + 1
+    w.probe('irregular_block_order')
+    desc = 'file with %d time blocks, blocks %s in order %s at time %d' % (
+        f['spec']['nt'], [(b['cat'], b['tid'], b['nl']) for b in f['spec']['blocks']],
+        f['spec']['permute']['perm'], f['spec']['permute']['t'])
+    try:
+        got = canon(_open(f['path']))
+    except BaseException as e:
+        st.stats['irregular_refused'] = st.stats.get('irregular_refused', 0) + 1
+        w.probe('irregular_file_refused_by_memmap_reader')
+        try:
+            got = canon(pnc.pncopen(f['path'], format='bpch2'))
+        except BaseException as e2:
+            st.stats['bpch2_unavailable'] += 1
+            _viol(st, 'bpch2-reader-raised',
+                  'the alternative block-walking reader raises on every file: %s: %s' % (
+                      type(e2).__name__, e2), error=type(e2).__name__)
+            return {'note': 'refused'}
+        _compare_scaled(st, f, got, 'block-walking read of an irregular ' + desc)
+        return {'note': 'fallback'}
+    st.stats['irregular_accepted'] = st.stats.get('irregular_accepted', 0) + 1
+    _compare_scaled(st, f, got, 'memory-mapped read of an irregular ' + desc)
+    return {'note': 'accepted'}
+
+
 def _outdir(st, op, f):
     d = st.w.path(op['out'])
     os.makedirs(d, exist_ok=True)
@@ -365,6 +418,8 @@ def apply(st, op):
     f = st.files.get(op['fid'])
     if f is None:
         return {'note': 'noop'}
+    if f['spec'].get('permute'):
+        return _irregular(st, f, op)
     st.stats['evaluations'] += 1
     desc = 'file with %d time blocks, blocks %s, grid %dx%d start %s' % (
         f['spec']['nt'], [(b['cat'], b['tid'], b['nl']) for b in f['spec']['blocks']],
